@@ -31,10 +31,10 @@ func init() {
 	register(&PropertyDef{
 		ID:          "C17",
 		Title:       "Rendezvous points are deterministic, agreed between peers, and rotate on time",
-		Explanation: "Decides, from the type-checked SSA of /repo and without executing it: (D1) by a backward, order-aware dependency query, that the digest returned by GenerateRendezvousPointForPeriod depends on each of topic, seed and date and on no clock, randomness or mutable package state, and that RoundTimePeriod/NextTimePeriod are pure functions of (date, interval); (D2) by abstract evaluation over the ordering of deadline and clock (representatives: deadline 2 s / 1 h before and after now), that Point.IsExpired is true exactly for a passed deadline and Point.TTL has the sign of deadline-now; (D3) by abstract evaluation over a period lattice (instant -> period index relative to a base instant, aligned to the period start or not), with IsExpired/TTL replaced by the contract D2 checks: NextTimePeriod is RoundTimePeriod plus one interval for either sign of the interval; NewRendezvousPointForPeriod digests (topic, seed, start of the period containing its time argument), sets the deadline to the end of that period and stores topic, seed and owner unchanged; NextPoint of an expired point builds the point of the period containing the clock with the same topic and seed; every exported lookup returns on a hit the cached point while it is live and, once it is expired, a newly built point of the current period that has been passed to the function storing points in both caches, and refuses a miss with an error; structurally: points are stored in both caches on the same path, under their own topic and their own encoded rotation value; the raw-rotation lookup encodes exactly like Point.RotationTopic; cache entries are deleted only in timer callbacks (never synchronously on the rotation path, never with a constant delay <= 0), only from the rotation cache, only under the key of the replaced point; every cache access holds the cache mutex in the required mode, including in callers and the timer callback; (D4) Marshal resolves the point for the message address, fails when the lookup fails, and sends that point's raw rotation value; Unmarshal looks up the RawRotation of the message decoded from the payload, fails on every path when the lookup fails, and opens the sealed box under the resolved point's topic; the store-opening path registers rotation and shared key under the same topic; (D5) every site that rebuilds a point for time.Now() behind a test of a point's deadline (swiper announce/watch loops, NextPoint) is reached on the deadline-passed side of the test; (D6) at every module call site of a lookup by rotation value (the lookups that read the rotation cache), no branch whose condition is computed from both the value looked up and the returned point's rotation value (directly or through a module helper) has a side that only fails: the lookup answers a previous-period value with the current point, so such a rejection would cancel the grace period for that consumer. Not decided: the arithmetic inside RoundTimePeriod (floor to a multiple of the interval; covered by the project's unit test), HMAC/SHA-256 strength, agreement across real clocks and clock skew, the length of the grace period (only that it is not zero by construction), the cadence of the swiper loops, behaviour for intervals below one second.",
+		Explanation: "Decides, from the type-checked SSA of /repo and without executing it: (D1) by a backward, order-aware dependency query, that the digest returned by GenerateRendezvousPointForPeriod depends on each of topic, seed and date and on no clock, randomness or mutable package state, that on the way from Time.Unix* to the MAC input the period start is never converted to an integer type narrower than 64 bits (int/uint count as narrow: 32-bit platforms) and that a constant-bounds PutUint64 region is entirely inside the bytes written to the hash (a hand-written shift/mask encoder is not modelled), and that RoundTimePeriod/NextTimePeriod are pure functions of (date, interval); (D2) by abstract evaluation over the ordering of deadline and clock (representatives: deadline 2 s / 1 h before and after now), that Point.IsExpired is true exactly for a passed deadline and Point.TTL has the sign of deadline-now; (D3) by abstract evaluation over a period lattice (instant -> period index relative to a base instant, aligned to the period start or not), with IsExpired/TTL replaced by the contract D2 checks: NextTimePeriod is RoundTimePeriod plus one interval for either sign of the interval; NewRendezvousPointForPeriod digests (topic, seed, start of the period containing its time argument), sets the deadline to the end of that period and stores topic, seed and owner unchanged; NextPoint of an expired point builds the point of the period containing the clock with the same topic and seed; every exported lookup returns on a hit the cached point while it is live and, once it is expired, a newly built point of the current period that has been passed to the function storing points in both caches, and refuses a miss with an error; structurally: points are stored in both caches on the same path, under their own topic and their own encoded rotation value; the raw-rotation lookup encodes exactly like Point.RotationTopic; cache entries are deleted only in timer callbacks (never synchronously on the rotation path, never with a constant delay <= 0), only from the rotation cache, only under the key of the replaced point; every cache access holds the cache mutex in the required mode, including in callers and the timer callback; (D4) Marshal resolves the point for the message address, fails when the lookup fails, and sends that point's raw rotation value; Unmarshal looks up the RawRotation of the message decoded from the payload, fails on every path when the lookup fails, and opens the sealed box under the resolved point's topic; the store-opening path registers rotation and shared key under the same topic; (D5) every site that rebuilds a point for time.Now() behind a test of a point's deadline (swiper announce/watch loops, NextPoint) is reached on the deadline-passed side of the test; (D6) at every module call site of a lookup by rotation value (the lookups that read the rotation cache), no branch whose condition is computed from both the value looked up and the returned point's rotation value (directly or through a module helper) has a side that only fails: the lookup answers a previous-period value with the current point, so such a rejection would cancel the grace period for that consumer. (D7) in every loop outside the rendezvous package that renews a point (constructor, NextPoint or a lookup called on a CFG cycle), each topic handed to the discovery service in that loop (string argument of an exported tinder.Service method, directly, through a module helper parameter, or through a struct field that another function passes on) derives from a renewal call of that loop, following locals and captured variables through all their stores; a topic fixed outside the loop is reported (flow-insensitive: a topic computed in the loop before the renewal of the same iteration is not distinguished). Not decided: the arithmetic inside RoundTimePeriod (floor to a multiple of the interval; covered by the project's unit test), HMAC/SHA-256 strength, agreement across real clocks and clock skew, the length of the grace period (only that it is not zero by construction), the cadence of the swiper loops, behaviour for intervals below one second.",
 		Trusted:     []string{"golang.org/x/tools go/packages+go/ssa (v0.29.0)", "semantics of package time (Now/Until/Since/Sub/After/Before/Add/Unix*), crypto/hmac, encoding/binary, encoding/base64 as documented", "the checker's abstract evaluator (absint.go)"},
 		Assumptions: []string{"dependencies behave as documented; only module code is analysed", "rotation intervals are whole seconds >= 1 s (the quantifier of the property)", "D3 assumes the contract of IsExpired/TTL that D2 checks"},
-		Floors:      map[string]int{"D1": 3, "D2": 2, "D3": 16, "D4": 7, "D5": 3, "D6": 2},
+		Floors:      map[string]int{"D1": 4, "D2": 2, "D3": 16, "D4": 7, "D5": 3, "D6": 2, "D7": 3},
 		Run:         runC17,
 	})
 }
@@ -184,6 +184,7 @@ type c17Dep struct {
 	depth int
 	busy  map[*ssa.Function]bool
 	glob  map[*ssa.Global]bool // mutable?
+	log   *[]ssa.Value         // every value on the dependency path (shared with callee walkers)
 }
 
 var c17PurePrefixes = []string{
@@ -303,6 +304,9 @@ func (d *c17Dep) visit(v ssa.Value, at ssa.Instruction) {
 		}
 		return
 	}
+	if d.log != nil {
+		*d.log = append(*d.log, v)
+	}
 	in, isInstr := v.(ssa.Instruction)
 	if call, ok := v.(*ssa.Call); ok {
 		d.visitCall(call)
@@ -325,7 +329,7 @@ func (d *c17Dep) visitCall(call *ssa.Call) {
 	key := calleeKey(cc)
 	// module callee with a body: summarise its results in terms of its parameters
 	if f := staticCallee(cc); f != nil && f.Blocks != nil && inModule(f) && d.depth < 5 && !d.busy[f] {
-		sub := &c17Dep{w: d.w, fn: f, out: newC17DepSet(), seen: map[[2]any]bool{}, depth: d.depth + 1, busy: d.busy, glob: d.glob}
+		sub := &c17Dep{w: d.w, fn: f, out: newC17DepSet(), seen: map[[2]any]bool{}, depth: d.depth + 1, busy: d.busy, glob: d.glob, log: d.log}
 		d.busy[f] = true
 		for _, r := range returnsOf(f) {
 			for _, res := range retResults(r) {
@@ -491,13 +495,174 @@ func (d *c17Dep) visitMutators(v ssa.Value, at ssa.Instruction) {
 
 // c17ResultDeps: what the results of fn depend on.
 func c17ResultDeps(w *World, fn *ssa.Function) *c17DepSet {
-	d := &c17Dep{w: w, fn: fn, out: newC17DepSet(), seen: map[[2]any]bool{}, busy: map[*ssa.Function]bool{fn: true}, glob: map[*ssa.Global]bool{}}
+	out, _ := c17ResultDepsLog(w, fn)
+	return out
+}
+
+// c17ResultDepsLog also returns every value met on the dependency paths of the results.
+func c17ResultDepsLog(w *World, fn *ssa.Function) (*c17DepSet, []ssa.Value) {
+	var log []ssa.Value
+	d := &c17Dep{w: w, fn: fn, out: newC17DepSet(), seen: map[[2]any]bool{}, busy: map[*ssa.Function]bool{fn: true}, glob: map[*ssa.Global]bool{}, log: &log}
 	for _, r := range returnsOf(fn) {
 		for _, res := range retResults(r) {
 			d.visit(res, r)
 		}
 	}
-	return d.out
+	return d.out, log
+}
+
+// ---- D1 width: the whole 64-bit period start reaches the MAC input
+
+func c17IsUnixCall(v ssa.Value) bool {
+	call, ok := v.(*ssa.Call)
+	if !ok {
+		return false
+	}
+	switch calleeKey(call.Common()) {
+	case "(time.Time).Unix", "(time.Time).UnixNano", "(time.Time).UnixMilli", "(time.Time).UnixMicro":
+		return true
+	}
+	return false
+}
+
+// c17FromUnix: v is the result of Time.Unix* looked at through conversions, phis and type
+// changes only (no arithmetic: shifts and masks of a hand-written encoder are not modelled).
+func c17FromUnix(v ssa.Value, depth int) bool {
+	if depth > 8 {
+		return false
+	}
+	if c17IsUnixCall(v) {
+		return true
+	}
+	switch x := v.(type) {
+	case *ssa.Convert:
+		return c17FromUnix(x.X, depth+1)
+	case *ssa.ChangeType:
+		return c17FromUnix(x.X, depth+1)
+	case *ssa.Phi:
+		for _, e := range x.Edges {
+			if c17FromUnix(e, depth+1) {
+				return true
+			}
+		}
+	}
+	return false
+}
+
+// c17NarrowInt: an integer type that cannot hold every int64 on every platform.
+func c17NarrowInt(t types.Type) (string, bool) {
+	b, ok := t.Underlying().(*types.Basic)
+	if !ok {
+		return "", false
+	}
+	switch b.Kind() {
+	case types.Int8, types.Uint8, types.Int16, types.Uint16, types.Int32, types.Uint32:
+		return b.Name(), true
+	case types.Int, types.Uint, types.Uintptr:
+		return b.Name() + " (32 bits on 32-bit platforms)", true
+	}
+	return "", false
+}
+
+// c17ConstSliceBounds: [lo, hi) of v inside its base array, when all bounds are constants.
+func c17ConstSliceBounds(v ssa.Value) (base ssa.Value, lo, hi int64, ok bool) {
+	switch x := v.(type) {
+	case *ssa.Slice:
+		b, blo, bhi, bok := c17ConstSliceBounds(x.X)
+		if !bok {
+			return nil, 0, 0, false
+		}
+		lo, hi = blo, bhi
+		if x.Low != nil {
+			n, isC := constInt(x.Low)
+			if !isC {
+				return nil, 0, 0, false
+			}
+			lo = blo + n
+		}
+		if x.High != nil {
+			n, isC := constInt(x.High)
+			if !isC {
+				return nil, 0, 0, false
+			}
+			hi = blo + n
+		}
+		return b, lo, hi, true
+	case *ssa.Alloc:
+		if at, isArr := x.Type().(*types.Pointer).Elem().Underlying().(*types.Array); isArr {
+			return x, 0, at.Len(), true
+		}
+	case *ssa.MakeSlice:
+		if n, isC := constInt(x.Len); isC {
+			return x, 0, n, true
+		}
+	}
+	return nil, 0, 0, false
+}
+
+func c17RunD1Width(c *Ctx, a *c17Anchors, log []ssa.Value) {
+	fn := a.gen
+	construct := fnName(fn) + "+period-width"
+	var bad []string
+	nUnix, nConv := 0, 0
+	seen := map[ssa.Value]bool{}
+	for _, v := range log {
+		if seen[v] {
+			continue
+		}
+		seen[v] = true
+		if c17IsUnixCall(v) {
+			nUnix++
+		}
+		cv, ok := v.(*ssa.Convert)
+		if !ok || !c17FromUnix(cv.X, 0) {
+			continue
+		}
+		nConv++
+		if name, narrow := c17NarrowInt(cv.Type()); narrow {
+			bad = append(bad, fmt.Sprintf("the period start (Time.Unix, 64 bits) is converted to %s at %s before it is hashed: period starts that differ only above that width give the same point, and the point is no longer the digest of the whole period start", name, c.pos(cv.Pos())))
+		}
+	}
+	// a 64-bit put whose bytes are not all handed to the hash
+	for _, b := range fn.Blocks {
+		for _, in := range b.Instrs {
+			put, ok := in.(*ssa.Call)
+			if !ok || !strings.HasSuffix(calleeKey(put.Common()), ").PutUint64") || !strings.HasPrefix(calleeKey(put.Common()), "(encoding/binary.") {
+				continue
+			}
+			args := put.Common().Args
+			if len(args) != 3 || !c17FromUnix(args[2], 0) {
+				continue
+			}
+			pb, plo, _, pok := c17ConstSliceBounds(args[1])
+			if !pok {
+				continue
+			}
+			for _, b2 := range fn.Blocks {
+				for _, in2 := range b2.Instrs {
+					wr, ok := in2.(*ssa.Call)
+					if !ok || !wr.Common().IsInvoke() || wr.Common().Method.Name() != "Write" || len(wr.Common().Args) != 1 {
+						continue
+					}
+					wb, wlo, whi, wok := c17ConstSliceBounds(wr.Common().Args[0])
+					if !wok || wb != pb {
+						continue
+					}
+					if wlo > plo || whi < plo+8 {
+						bad = append(bad, fmt.Sprintf("the period start is encoded into bytes [%d,%d) of the buffer but only bytes [%d,%d) are written to the hash at %s: part of the period start never reaches the MAC", plo, plo+8, wlo, whi, c.pos(posOf(wr))))
+					}
+				}
+			}
+		}
+	}
+	switch {
+	case len(bad) > 0:
+		c.fail("D1", construct, fn.Pos(), "%s", strings.Join(c17Uniq(bad), "; "))
+	case nUnix == 0:
+		c.undecided("D1", construct, fn.Pos(), "the date does not reach the digest through Time.Unix/UnixNano/UnixMilli/UnixMicro: the width of the encoded period start is not modelled")
+	default:
+		c.ok("D1", construct, fn.Pos(), "the 64-bit period start reaches the MAC input without a narrowing conversion (%d integer conversions on the path, all 64-bit) and every encoded byte is hashed", nConv)
+	}
 }
 
 func c17RunD1(c *Ctx, a *c17Anchors) {
@@ -511,7 +676,10 @@ func c17RunD1(c *Ctx, a *c17Anchors) {
 			continue
 		}
 		c.analysed(s.fn)
-		deps := c17ResultDeps(c.W, s.fn)
+		deps, log := c17ResultDepsLog(c.W, s.fn)
+		if s.fn == a.gen {
+			defer c17RunD1Width(c, a, log)
+		}
 		construct := fnName(s.fn)
 		var missing []string
 		for i, p := range s.fn.Params {
@@ -2735,8 +2903,312 @@ func c17RunD6(c *Ctx, a *c17Anchors) {
 	c.count("rotation_lookup_consumers", n)
 }
 
+// ---------------------------------------------------------------------------
+// D7: consumers inside a renewal loop use the point current in that iteration. A loop that
+// renews a point (constructor, NextPoint or a lookup called inside a CFG cycle) and hands a
+// rotation topic to the discovery service (exported methods of tinder.Service taking a
+// topic, directly, through a module helper, or through a struct field another function
+// passes on) must compute that topic from the renewed point, not from a value fixed outside
+// the loop: otherwise the peer keeps advertising / watching the first period's point.
+
+const c17PkgTinder = modulePath + "/pkg/tinder"
+
+type c17Sinks struct {
+	a      *c17Anchors
+	w      *World
+	params map[*ssa.Function]map[int]bool // module function -> string parameters that reach a topic sink
+	fields map[string]bool                // "pkg.Type#idx": fields whose value is passed to a topic sink
+}
+
+// isServiceTopicArg: call is an exported method of *tinder.Service; returns the indices of its
+// string arguments.
+func c17ServiceTopicArgs(cc *ssa.CallCommon) []int {
+	f := staticCallee(cc)
+	if f == nil || f.Signature.Recv() == nil || !isNamed(f.Signature.Recv().Type(), c17PkgTinder, "Service") {
+		return nil
+	}
+	if obj := f.Object(); obj == nil || !obj.Exported() {
+		return nil
+	}
+	var out []int
+	for i, arg := range cc.Args {
+		if i > 0 && c17IsString(arg.Type()) {
+			out = append(out, i)
+		}
+	}
+	return out
+}
+
+func c17FieldKey(v ssa.Value) (string, bool) {
+	ld, ok := v.(*ssa.UnOp)
+	if ok && ld.Op == token.MUL {
+		v = ld.X
+	}
+	fa, ok := v.(*ssa.FieldAddr)
+	if !ok {
+		return "", false
+	}
+	pt, ok := fa.X.Type().Underlying().(*types.Pointer)
+	if !ok {
+		return "", false
+	}
+	n, ok := pt.Elem().(*types.Named)
+	if !ok || n.Obj().Pkg() == nil {
+		return "", false
+	}
+	return fmt.Sprintf("%s.%s#%d", n.Obj().Pkg().Path(), n.Obj().Name(), fa.Field), true
+}
+
+func c17FindSinks(a *c17Anchors, w *World) *c17Sinks {
+	s := &c17Sinks{a: a, w: w, params: map[*ssa.Function]map[int]bool{}, fields: map[string]bool{}}
+	mark := func(fn *ssa.Function, v ssa.Value) bool {
+		v = stripConv(v)
+		changed := false
+		// a parameter captured by a closure is spilled to a cell: look through it
+		if ld, ok := v.(*ssa.UnOp); ok && ld.Op == token.MUL {
+			if al, ok := ld.X.(*ssa.Alloc); ok && al.Referrers() != nil {
+				for _, r := range *al.Referrers() {
+					if st, ok := r.(*ssa.Store); ok && st.Addr == ssa.Value(al) {
+						if _, isPar := st.Val.(*ssa.Parameter); isPar {
+							v = st.Val
+						}
+					}
+				}
+			}
+		}
+		for i, p := range fn.Params {
+			if v == ssa.Value(p) {
+				if s.params[fn] == nil {
+					s.params[fn] = map[int]bool{}
+				}
+				if !s.params[fn][i] {
+					s.params[fn][i] = true
+					changed = true
+				}
+			}
+		}
+		if ld, ok := v.(*ssa.UnOp); ok && ld.Op == token.MUL {
+			if k, ok := c17FieldKey(ld); ok && !s.fields[k] {
+				s.fields[k] = true
+				changed = true
+			}
+		}
+		return changed
+	}
+	for iter, changed := 0, true; changed && iter < 4; iter++ {
+		changed = false
+		for _, fn := range w.ModFuncs {
+			if p := fnPkg(fn); p == nil || p.Path() == c17PkgTinder {
+				continue
+			}
+			for _, b := range fn.Blocks {
+				for _, in := range b.Instrs {
+					ci, ok := in.(ssa.CallInstruction)
+					if !ok {
+						continue
+					}
+					for _, i := range s.sinkArgs(ci.Common()) {
+						if mark(fn, ci.Common().Args[i]) {
+							changed = true
+						}
+					}
+				}
+			}
+		}
+	}
+	return s
+}
+
+// sinkArgs: the argument indices of the call that are handed to the discovery service as a topic.
+func (s *c17Sinks) sinkArgs(cc *ssa.CallCommon) []int {
+	if idx := c17ServiceTopicArgs(cc); len(idx) > 0 {
+		return idx
+	}
+	f := staticCallee(cc)
+	if f == nil {
+		return nil
+	}
+	var out []int
+	for i := range s.params[f] {
+		if i < len(cc.Args) {
+			out = append(out, i)
+		}
+	}
+	sort.Ints(out)
+	return out
+}
+
+// c17SCC: the blocks on a common cycle with b (empty when b is not in a loop).
+func c17LoopOf(b *ssa.BasicBlock) map[*ssa.BasicBlock]bool {
+	fwd := map[*ssa.BasicBlock]bool{}
+	stack := append([]*ssa.BasicBlock(nil), b.Succs...)
+	for len(stack) > 0 {
+		x := stack[len(stack)-1]
+		stack = stack[:len(stack)-1]
+		if fwd[x] {
+			continue
+		}
+		fwd[x] = true
+		stack = append(stack, x.Succs...)
+	}
+	if !fwd[b] {
+		return nil
+	}
+	bwd := map[*ssa.BasicBlock]bool{}
+	stack = append(stack[:0], b.Preds...)
+	for len(stack) > 0 {
+		x := stack[len(stack)-1]
+		stack = stack[:len(stack)-1]
+		if bwd[x] {
+			continue
+		}
+		bwd[x] = true
+		stack = append(stack, x.Preds...)
+	}
+	out := map[*ssa.BasicBlock]bool{}
+	for x := range fwd {
+		if bwd[x] {
+			out[x] = true
+		}
+	}
+	return out
+}
+
+// c17DerivesFrom: v can carry a value computed from one of the target instructions; memory
+// cells (locals, captured variables) are followed through every store to them in the function.
+func c17DerivesFrom(v ssa.Value, targets map[ssa.Value]bool, seen map[ssa.Value]bool) bool {
+	if v == nil || seen[v] {
+		return false
+	}
+	seen[v] = true
+	if targets[v] {
+		return true
+	}
+	if ld, ok := v.(*ssa.UnOp); ok && ld.Op == token.MUL {
+		var refs *[]ssa.Instruction
+		switch cell := ld.X.(type) {
+		case *ssa.Alloc:
+			refs = cell.Referrers()
+		case *ssa.FreeVar:
+			refs = cell.Referrers()
+		}
+		if refs != nil {
+			for _, r := range *refs {
+				if st, ok := r.(*ssa.Store); ok && st.Addr == ld.X && c17DerivesFrom(st.Val, targets, seen) {
+					return true
+				}
+			}
+		}
+	}
+	in, ok := v.(ssa.Instruction)
+	if !ok {
+		return false
+	}
+	var ops [12]*ssa.Value
+	for _, op := range in.Operands(ops[:0]) {
+		if op != nil && *op != nil && c17DerivesFrom(*op, targets, seen) {
+			return true
+		}
+	}
+	return false
+}
+
+func c17RunD7(c *Ctx, a *c17Anchors) {
+	w := c.W
+	if a.newPoint == nil {
+		return // reported by D3
+	}
+	renewers := map[*ssa.Function]bool{a.newPoint: true}
+	if a.nextPoint != nil {
+		renewers[a.nextPoint] = true
+	}
+	for _, l := range a.lookups {
+		renewers[l] = true
+	}
+	sinks := c17FindSinks(a, w)
+	n := 0
+	for _, fn := range w.ModFuncs {
+		if p := fnPkg(fn); p == nil || p.Path() == c17PkgRdv || p.Path() == c17PkgTinder {
+			continue
+		}
+		// renewal sites inside a loop
+		handled := map[int]bool{}
+		for _, b := range fn.Blocks {
+			for _, in := range b.Instrs {
+				rc, ok := in.(*ssa.Call)
+				if !ok || !renewers[staticCallee(rc.Common())] {
+					continue
+				}
+				loop := c17LoopOf(b)
+				if loop == nil {
+					continue
+				}
+				head := b.Index
+				for lb := range loop {
+					if lb.Index < head {
+						head = lb.Index
+					}
+				}
+				if handled[head] {
+					continue
+				}
+				handled[head] = true
+				targets := map[ssa.Value]bool{}
+				for lb := range loop {
+					for _, x := range lb.Instrs {
+						if xc, ok := x.(*ssa.Call); ok && renewers[staticCallee(xc.Common())] {
+							targets[xc] = true
+						}
+					}
+				}
+				c.analysed(fn)
+				// consumers in the same loop
+				for lb := range loop {
+					for _, x := range lb.Instrs {
+						type use struct {
+							v    ssa.Value
+							what string
+						}
+						var uses []use
+						switch u := x.(type) {
+						case ssa.CallInstruction:
+							for _, i := range sinks.sinkArgs(u.Common()) {
+								name := calleeKey(u.Common())
+								if f := staticCallee(u.Common()); f != nil {
+									name = f.Name()
+								}
+								uses = append(uses, use{u.Common().Args[i], name})
+							}
+						case *ssa.Store:
+							if k, ok := c17FieldKey(u.Addr); ok && sinks.fields[k] {
+								fa := u.Addr.(*ssa.FieldAddr)
+								st := fa.X.Type().Underlying().(*types.Pointer).Elem().Underlying().(*types.Struct)
+								uses = append(uses, use{u.Val, "field " + st.Field(fa.Field).Name()})
+							}
+						}
+						for _, us := range uses {
+							n++
+							construct := fnName(fn) + "+" + us.what
+							if c17DerivesFrom(us.v, targets, map[ssa.Value]bool{}) {
+								c.ok("D7", construct, posOf(x), "the topic handed to the discovery service is computed from the point renewed in this loop")
+							} else {
+								c.fail("D7", construct, posOf(x), "the loop renews its rendezvous point at each deadline, but the topic handed to %s is fixed outside the loop and does not derive from the renewed point: after the first period boundary the peer keeps using the previous period's point", us.what)
+							}
+						}
+					}
+				}
+			}
+		}
+	}
+	if n == 0 {
+		c.undecided("D7", "renewal loops", token.NoPos, "no loop that renews a rendezvous point hands a topic to the discovery service")
+	}
+	c.count("renewal_loop_consumers", n)
+}
+
 func runC17(c *Ctx) {
 	a := c17Find(c)
+	defer c17RunD7(c, a)
 	c17RunD1(c, a)
 	c17RunD2(c, a)
 	c17RunD3Eval(c, a)
